@@ -8,8 +8,8 @@
 /repo itself is never written."""
 import json, os, re, subprocess, sys
 ROOT = os.path.dirname(os.path.dirname(os.path.dirname(os.path.abspath(__file__))))
-REPO = "/repo"
 work = sys.argv[1]
+REPO = sys.argv[2] if len(sys.argv) > 2 else "/repo"
 os.makedirs(work, exist_ok=True)
 shim_src = os.path.join(ROOT, "harness", "shimos", "hooked.go")
 gen = os.path.join(work, "passthrough.go")
